@@ -29,9 +29,11 @@ VARIABLES tr, l,
           pend,     \* g -> compute sequence number of the pack g holds at "presend"
           evs,      \* API events so far, each with field at = number of packs emitted before it
           drained,  \* the final drain event was consumed
+          stops,    \* sequence of [c, step]: StopReadCollection calls
+          addparts, \* sequence of [c, p, registered]: AddPartition calls with the shards registered at that instant
           kfused
 
-vars == <<tr, l, outs, reads, srcmsg, cnt, pend, evs, drained, kfused>>
+vars == <<tr, l, outs, reads, srcmsg, cnt, pend, evs, drained, stops, addparts, kfused>>
 
 Params == Traces[tr].params
 Floor == IF "floor" \in DOMAIN Params THEN Params.floor ELSE 0
@@ -40,7 +42,7 @@ TaskID == "task1"
 
 TInit == /\ tr \in 1..Len(Traces) /\ l = 1
          /\ outs = <<>> /\ reads = <<>> /\ srcmsg = <<>> /\ cnt = 0 /\ pend = <<>> /\ evs = <<>>
-         /\ drained = FALSE /\ kfused = {}
+         /\ drained = FALSE /\ stops = <<>> /\ addparts = <<>> /\ kfused = {}
 
 IsTick(m) == m.k = "tick"
 NonTick(p) == SelectSeq(p.msgs, LAMBDA m : ~IsTick(m))
@@ -142,10 +144,72 @@ ByCompute(sq) == SortSeq(sq, LAMBDA a, b : a.cs < b.cs)
 C03Seq(sq) == IF KFOn("C03_enqueue_race") THEN ByCompute(sq) ELSE sq
 C03Inv == \A q \in QsOf(outs) : ChannelOK(C03Seq(OnQ(outs, q))) /\ OrderKept(OnQ(outs, q))
 
+(* ------------------------------ C04 -------------------------------------- *)
+CollByName(n) == Catalog[CHOOSE i \in 1..Len(Catalog) : Catalog[i].name = n]
+KnownName(n) == \E i \in 1..Len(Catalog) : Catalog[i].name = n
+IsDropC(ev) == ev.type = "DropCollection"
+IsDropP(ev) == ev.type = "DropPartition"
+\* shard s has read (within the first n reads) the drop message of obj ("" = the collection)
+HasReadDrop(s, obj, n) == \E r \in 1..n : reads[r].s = s /\ \E i \in 1..Len(reads[r].pack.msgs) :
+                              LET m == reads[r].pack.msgs[i] IN
+                              (obj = "" /\ m.k = "dropc") \/ (obj # "" /\ m.k = "dropp" /\ m.p = obj)
+ShardsOfC(c) == {c.src_v[i] : i \in 1..Len(c.src_v)}
+DroppedAtStart(c) == "dropped" \in DOMAIN c /\ c.dropped
+DropOnce == \A i, j \in 1..Len(evs) : (i < j /\ evs[i].type = evs[j].type /\ (IsDropC(evs[i]) \/ IsDropP(evs[i]))
+                                          /\ evs[i].cname = evs[j].cname /\ evs[i].pname = evs[j].pname) => FALSE
+DropNamed(ev) == /\ KnownName(ev.cname)
+                 /\ LET c == CollByName(ev.cname) IN
+                    /\ ev.cid = c.id /\ ev.task = TaskID
+                    /\ ev.db = (IF "db" \in DOMAIN c /\ c.db # "" THEN c.db ELSE "default")
+                    /\ (IsDropC(ev) => ev.msgid = "drop-collection-" \o ToString(c.id))
+                    /\ (IsDropP(ev) => /\ ev.pname \in DOMAIN c.parts /\ ev.pid = c.parts[ev.pname][1]
+                                       /\ ev.msgid = "drop-partition-" \o ToString(c.id) \o "-" \o ToString(c.parts[ev.pname][1]))
+\* known finding C04_partition_barrier_size: the partition barrier is sized by the handlers that hold the collection
+\* record when AddPartition runs; with the finding enabled a partition drop may be issued once every shard that was
+\* registered at that instant has read it
+RegisteredAtAddPart(c, p) == IF \E i \in 1..Len(addparts) : addparts[i].c = c.name /\ addparts[i].p = p
+                               THEN LET a == addparts[CHOOSE i \in 1..Len(addparts) : addparts[i].c = c.name /\ addparts[i].p = p] IN
+                                    {a.registered[i] : i \in 1..Len(a.registered)}
+                               ELSE ShardsOfC(c)
+AfterAllShards(ev, strict) ==
+    LET c == CollByName(ev.cname) IN
+    /\ (IsDropC(ev) => DroppedAtStart(c) \/ \A s \in ShardsOfC(c) : HasReadDrop(s, "", ev.nreads))
+    /\ (IsDropP(ev) => LET need == IF ~strict /\ KFOn("C04_partition_barrier_size") THEN RegisteredAtAddPart(c, ev.pname) ELSE ShardsOfC(c) IN
+                        \A s \in need : HasReadDrop(s, ev.pname, ev.nreads))
+\* nothing that a shard read after its own drop message of an object is emitted for that object
+DropPackNo(s, obj) == IF HasReadDrop(s, obj, Len(reads))
+                        THEN LET rs == ReadsOf(s) IN
+                             CHOOSE k \in 1..Len(rs) : \E i \in 1..Len(rs[k].pack.msgs) :
+                                 LET m == rs[k].pack.msgs[i] IN (obj = "" /\ m.k = "dropc") \/ (obj # "" /\ m.k = "dropp" /\ m.p = obj)
+                        ELSE 100000
+SilentAfterDrop(p) ==
+    LabelOK(p) /\ WasRead(StreamOfPack(p), PackId(p)) =>
+      LET s == StreamOfPack(p)  no == PackNo(s, PackId(p))  d == NonTick(p) IN
+      /\ (Len(d) > 0 => no <= DropPackNo(s, ""))
+      /\ \A i \in 1..Len(d) : d[i].k \in {"ins", "del"} /\ d[i].pname # "" => no <= DropPackNo(s, d[i].pname)
+StopNeverDrops == \A i \in 1..Len(evs) : (IsDropC(evs[i]) \/ IsDropP(evs[i])) =>
+                     \A j \in 1..Len(stops) : stops[j].c = evs[i].cname => evs[i].step < stops[j].step
+NDrops(type, cn, pn) == Cardinality({i \in 1..Len(evs) : evs[i].type = type /\ evs[i].cname = cn /\ evs[i].pname = pn})
+Stopped(c) == \E j \in 1..Len(stops) : stops[j].c = c.name
+SeekGiven == "seek_ts" \in DOMAIN Params /\ Params.seek_ts > 0
+Delivered ==
+    (drained /\ NoError) =>
+      \A ci \in 1..Len(Catalog) : LET c == Catalog[ci] IN
+        (~Stopped(c) /\ ((\E r \in 1..Len(reads) : reads[r].s \in ShardsOfC(c)) \/ (DroppedAtStart(c) /\ SeekGiven))) =>
+          /\ (((DroppedAtStart(c) /\ SeekGiven) \/ \A s \in ShardsOfC(c) : HasReadDrop(s, "", Len(reads))) => NDrops("DropCollection", c.name, "") = 1)
+          /\ \A pn \in DOMAIN c.parts :
+                ((\A s \in ShardsOfC(c) : HasReadDrop(s, pn, Len(reads))) /\ NDrops("DropCollection", c.name, "") = 0) => NDrops("DropPartition", c.name, pn) = 1
+C04Inv == /\ DropOnce
+          /\ \A i \in 1..Len(evs) : (IsDropC(evs[i]) \/ IsDropP(evs[i])) => DropNamed(evs[i]) /\ AfterAllShards(evs[i], FALSE)
+          /\ \A i \in 1..Len(outs) : SilentAfterDrop(outs[i])
+          /\ StopNeverDrops
+          /\ Delivered
+
 (* ------------------------------ step ------------------------------------- *)
 Inv == /\ (P("C01") => C01Inv)
        /\ (P("C02") => C02Inv)
        /\ (P("C03") => C03Inv)
+       /\ (P("C04") => C04Inv)
 
 MidsOf(e) == {e.pack.msgs[i].mid : i \in 1..Len(e.pack.msgs)}
 MsgOf(e, k) == e.pack.msgs[CHOOSE j \in 1..Len(e.pack.msgs) : e.pack.msgs[j].mid = k]
@@ -164,13 +228,18 @@ TStep ==
             ELSE UNCHANGED <<cnt, pend>>
        /\ LET csOf == IF e.op = "step" /\ e.g \in DOMAIN pend THEN pend[e.g] ELSE 0 IN
           outs' = outs \o [i \in 1..Len(e.out) |-> e.out[i] @@ [cs |-> csOf]]
-       /\ evs' = evs \o [i \in 1..Len(e.evs) |-> e.evs[i] @@ [at |-> Len(outs)]]
+       /\ evs' = evs \o [i \in 1..Len(e.evs) |-> e.evs[i] @@ [at |-> Len(outs), nreads |-> Len(reads), step |-> l]]
+       /\ stops' = IF e.op = "stop" THEN Append(stops, [c |-> e.c, step |-> l]) ELSE stops
+       /\ addparts' = IF e.op = "addpart" /\ ~e.err THEN Append(addparts, [c |-> e.c, p |-> e.p, registered |-> e.registered]) ELSE addparts
        /\ drained' = (drained \/ e.op = "drain")
     /\ l' = l + 1 /\ tr' = tr
     /\ ((l = Len(Traces[tr].events) \/ Diag) => Inv')
     /\ kfused' = kfused
          \cup (IF KFOn("C03_enqueue_race") /\ P("C03") /\ \E q \in QsOf(outs') : ByCompute(OnQ(outs', q)) # OnQ(outs', q)
                  THEN {"C03_enqueue_race"} ELSE {})
+         \cup (IF KFOn("C04_partition_barrier_size") /\ P("C04") /\ l = Len(Traces[tr].events)
+                  /\ (\E i \in 1..Len(evs) : IsDropP(evs[i]) /\ ~AfterAllShards(evs[i], TRUE))'
+                 THEN {"C04_partition_barrier_size"} ELSE {})
          \cup (IF KFOn("C01_tickonly_forward_order") /\ P("C01") /\ l = Len(Traces[tr].events) /\ ~ReadOrder(outs', reads', TRUE)
                  THEN {"C01_tickonly_forward_order"} ELSE {})
     /\ (Diag => PrintT("AT " \o ToString(Traces[tr].plan) \o " " \o ToString(l)))
